@@ -17,9 +17,10 @@ Programs
   pairs listed under `bounds` (the full alphabet at length 5 has 3e7 sequences; the bound on the number of
   branch tokens is what makes the longer lengths enumerable).
 
-Start offset: every token boundary 0..n-1.
+Start offset: every token boundary 0..n-1 (family start0: offset 0 only).
 
 Options (families; each family is a complete product over the programs it names)
+  start0        no option, start offset 0 only (the longest programs)
   default       no option
   single        exactly one of: dont_dis={b} (b any boundary 0..n), split_dis={b}, lines_wd in {1,2},
                 blocs_wd in {1,2}, follow_call, dontdis_retcall (the two call options only on programs with a CALL token)
@@ -95,17 +96,20 @@ DEFAULT_OPTS = {"dont_dis": [], "split_dis": [], "lines_wd": None, "blocs_wd": N
 # bounds: per tier, per arch: family -> list of (length, max branch tokens)
 BOUNDS = {
     "quick": {
-        "x86_32": {"default": [(1, 1), (2, 2), (3, 3), (4, 2), (5, 1)],
-                   "single": [(1, 1), (2, 2), (3, 2), (4, 1)],
-                   "cross": [(1, 1), (2, 1)]},
+        "x86_32": {"start0": [(5, 1)],
+                   "default": [(1, 1), (2, 2), (3, 2), (4, 1)],
+                   "single": [(1, 1), (2, 2), (3, 1)],
+                   "cross": [(1, 1), (2, 0)]},
     },
     "thorough": {
-        "x86_32": {"default": [(1, 1), (2, 2), (3, 3), (4, 3), (5, 2), (6, 1)],
-                   "single": [(1, 1), (2, 2), (3, 3), (4, 2), (5, 1)],
-                   "cross": [(1, 1), (2, 2), (3, 1)]},
-        "mips32l": {"default": [(1, 1), (2, 2), (3, 3), (4, 3), (5, 2), (6, 1)],
-                    "single": [(1, 1), (2, 2), (3, 3), (4, 2)],
-                    "cross": [(1, 1), (2, 2), (3, 1)]},
+        "x86_32": {"start0": [(6, 1)],
+                   "default": [(1, 1), (2, 2), (3, 3), (4, 2), (5, 1), (6, 0)],
+                   "single": [(1, 1), (2, 2), (3, 2), (4, 1)],
+                   "cross": [(1, 1), (2, 2), (3, 0)]},
+        "mips32l": {"start0": [(6, 1)],
+                    "default": [(1, 1), (2, 2), (3, 3), (4, 2), (5, 1), (6, 0)],
+                    "single": [(1, 1), (2, 2), (3, 2), (4, 0)],
+                    "cross": [(1, 1), (2, 2), (3, 0)]},
     },
 }
 
@@ -668,6 +672,10 @@ def cases_of(tier, arch, prog):
             optl.append({})
         if "single" in fams:
             optl += opts_single(prog, offs)
+    if not optl:
+        if "start0" in fams:
+            yield 0, {}
+        return
     for s in offs[:-1]:
         for o in optl:
             yield s, o
@@ -706,6 +714,11 @@ def _shard(args):
 def run(ctx):
     tier = "quick" if ctx.quick else "thorough"
     shards = []
+    for arch in BOUNDS[tier]:
+        _machine(arch)          # import miasm before the pool forks ...
+    import gc
+    gc.collect()
+    gc.freeze()                 # ... and keep the collector of the workers away from the inherited heap (copy-on-write storms)
     for arch, fams in BOUNDS[tier].items():
         lens = {}
         for lst in fams.values():
